@@ -154,6 +154,7 @@ class OptimizeResult(dict):
         self[
             "success"
         ] = True  # TODO: In our case when an error occurs, the application just stops.
+        self["status"] = 0
         self["message"] = bads.optim_state["termination_msg"]
 
     def __getattr__(self, name):
